@@ -45,8 +45,9 @@ Lemma ipv_step_shape ips locals p rest st st' :
        (match p_size p with
         | ESym s =>
             s = hash_name (p_name p)
-            \/ (lookup s (st_locals st) = None /\ al = (st_locals st ++ [(s, ESym (hash_name (p_name p)))])%list)
-            \/ (exists v, lookup s (st_locals st) = Some v /\ cs = (st_constraints st ++ [mk_constraint (ESym (hash_name (p_name p))) v])%list)
+            \/ (mem s ips = false /\ lookup s (st_locals st) = None /\ al = (st_locals st ++ [(s, ESym (hash_name (p_name p)))])%list)
+            \/ (exists v, ((mem s ips = false /\ lookup s (st_locals st) = Some v) \/ (mem s ips = true /\ v = ESym s))
+                          /\ cs = (st_constraints st ++ [mk_constraint (ESym (hash_name (p_name p))) v])%list)
         | sz =>
             exists rhs, cs = (st_constraints st ++ [mk_constraint (ESym (hash_name (p_name p))) rhs])%list
                         /\ (is_constant_int sz = true -> rhs = sz)
@@ -66,11 +67,15 @@ Proof.
     destruct (String.eqb s (hash_name (p_name p))) eqn:Eh.
     + do 2 eexists. split; [exact H|]. split; [exists []; rewrite app_nil_r; reflexivity|].
       split; [exists []; rewrite app_nil_r; reflexivity|]. left. apply String.eqb_eq. exact Eh.
-    + destruct (lookup s (st_locals st)) as [v|] eqn:El.
+    + destruct (mem s ips) eqn:Em.
+      { (* the symbol is a declared parameter: a constraint against the parameter *)
+        do 2 eexists. split; [exact H|]. split; [exists []; rewrite app_nil_r; reflexivity|]. split; [eexists; reflexivity|].
+        right. right. exists (ESym s). split; [right; split; reflexivity|reflexivity]. }
+      destruct (lookup s (st_locals st)) as [v|] eqn:El.
       * do 2 eexists. split; [exact H|]. split; [exists []; rewrite app_nil_r; reflexivity|]. split; [eexists; reflexivity|].
-        right. right. exists v. split; reflexivity.
+        right. right. exists v. split; [left; split; reflexivity|reflexivity].
       * do 2 eexists. split; [exact H|]. split; [eexists; reflexivity|]. split; [exists []; rewrite app_nil_r; reflexivity|].
-        right. left. split; reflexivity.
+        right. left. repeat split; reflexivity.
   - destruct (is_constant_int (EOp o args)) eqn:Ec; [discriminate Ec|].
     destruct (filter _ (fv (EOp o args))) eqn:Em; [|discriminate].
     do 2 eexists. split; [exact H|]. split; [exists []; rewrite app_nil_r; reflexivity|]. split; [eexists; reflexivity|].
@@ -138,7 +143,7 @@ Proof.
   destruct (p_size p0) as [q|s|o args|k i b lo hi].
   - destruct Hacc as [rhs [Hcs [Hc _]]]. exists rhs. split; [|exact Hc].
     rewrite Hc2, Hcs. apply in_or_app. left. apply in_or_app. right. left. reflexivity.
-  - destruct Hacc as [Hs|[[_ Hal]|[v [_ Hcs]]]].
+  - destruct Hacc as [Hs|[[_ [_ Hal]]|[v [_ Hcs]]]].
     + left. exact Hs.
     + right. left. rewrite Hl2, Hal. apply in_or_app. left. apply in_or_app. right. left. reflexivity.
     + right. right. exists v. rewrite Hc2, Hcs. apply in_or_app. left. apply in_or_app. right. left. reflexivity.
@@ -146,6 +151,35 @@ Proof.
     rewrite Hc2, Hcs. apply in_or_app. left. apply in_or_app. right. left. reflexivity.
   - destruct Hacc as [rhs [Hcs [Hc _]]]. exists rhs. split; [|exact Hc].
     rewrite Hc2, Hcs. apply in_or_app. left. apply in_or_app. right. left. reflexivity.
+Qed.
+
+(* (2') a port whose declared size is a declared PARAMETER of the routine does not define that symbol: it yields the
+   constraint `#port = parameter`, so what flows into the port is compared with the parameter's value *)
+Lemma ipv_loop_param ips locals : forall ps st st',
+    ipv_loop ips locals ps st = Ok st' ->
+    forall p s, In p ps -> p_size p = ESym s -> s <> hash_name (p_name p) -> mem s ips = true ->
+      In (mk_constraint (ESym (hash_name (p_name p))) (ESym s)) (st_constraints st').
+Proof.
+  induction ps as [|p0 rest IH]; intros st st' H p s Hin Hsz Hne Hm; [destruct Hin|].
+  destruct (ipv_step_shape _ _ _ _ _ _ H) as [al [cs [Hrest [_ [_ Hacc]]]]].
+  destruct (ipv_loop_inv _ _ _ _ _ Hrest) as [_ [_ [c2 Hc2]]]. cbn [st_constraints] in Hc2.
+  destruct Hin as [<-|Hin]; [|exact (IH _ _ Hrest p s Hin Hsz Hne Hm)].
+  rewrite Hsz in Hacc. destruct Hacc as [Hs|[[Hf _]|[v [[[Hf _]|[_ Hv]] Hcs]]]]; try contradiction; try congruence.
+  subst v. rewrite Hc2, Hcs. apply in_or_app. left. apply in_or_app. right. left. reflexivity.
+Qed.
+
+Theorem ipv_parameter_sized_port r r' :
+  introduce_port_variables_node r = Ok r' ->
+  forall p s, In p (rports r) -> p_dir p <> DOut -> p_size p = ESym s -> s <> hash_name (p_name p) ->
+              mem s (rparams r) = true ->
+              In (mk_constraint (ESym (hash_name (p_name p))) (ESym s)) (rconstraints r').
+Proof.
+  destruct r as [n t ips lo li ps rs c rp cs ch]. cbn [introduce_port_variables_node]. intro H.
+  inv_bind H. inversion H; subst. clear H. cbn [rports rparams rconstraints].
+  intros p s Hp Hd Hsz Hne Hm.
+  assert (Hin : In p (sort_ports (filter (fun q => negb (dir_eqb (p_dir q) DOut)) ps))).
+  { apply sort_ports_in. apply filter_In. split; [exact Hp|]. destruct (p_dir p); cbn; congruence. }
+  apply in_or_app. right. exact (ipv_loop_param _ _ _ _ _ Hb p s Hin Hsz Hne Hm).
 Qed.
 
 Theorem ipv_declarations_accounted r r' :
